@@ -249,6 +249,38 @@ def run_design(names, tier):
     return res
 
 
+def run_lemmas(names):
+    """Scale-free lemmas discharged by Apalache for unbounded integers (spec/lemmas). A lemma that is not proved is a
+    defect of the specification, i.e. a tool failure, never a violation of the code."""
+    import props
+    jobs = []
+    for name in names:
+        L = props.LEMMAS[name]
+        for inv in L["invs"]:
+            jobs.append((name, L["file"], inv))
+
+    def one(job):
+        name, f, inv = job
+        d = os.path.join(WORK, "apa", "%s-%s-%d" % (name, inv, os.getpid()))
+        shutil.rmtree(d, ignore_errors=True)
+        os.makedirs(d)
+        shutil.copy(os.path.join(FLAT, f), d)
+        t0 = time.time()
+        p = subprocess.run(["timeout", "600", "apalache-mc", "check", "--length=0", "--inv=" + inv, f], cwd=d, stdout=subprocess.PIPE, stderr=subprocess.STDOUT, text=True)
+        ok = "The outcome is: NoError" in p.stdout
+        shutil.rmtree(d, ignore_errors=True)
+        if not ok:
+            log(p.stdout[-3000:])
+            raise ToolFailure("lemma %s.%s was not discharged by Apalache" % (name, inv))
+        return dict(lemma=name, inv=inv, wall=round(time.time() - t0, 1))
+
+    with ThreadPoolExecutor(max_workers=4) as ex:
+        res = list(ex.map(one, jobs))
+    for r in res:
+        log("  L %-22s %-20s proved for unbounded integers (Apalache, %.1fs)" % (r["lemma"], r["inv"], r["wall"]))
+    return res
+
+
 def run_generators(pid, gens, tier, seed, outdir):
     """Replay direction (job R): TLC prints REPLAY lines; the harness replays them on the real code."""
     import props
@@ -296,6 +328,7 @@ def check(pid, tier, seed):
     outdir = os.path.join(WORK, pid)
     # D
     dres = run_design(P.get("design", []), tier)
+    lres = run_lemmas(P.get("lemmas", []))
     # T
     summary, tres, rejects, events = {}, [], [], 0
     if P.get("drive"):
@@ -355,7 +388,7 @@ def check(pid, tier, seed):
                distinct_nontrivial=len(ops) + behaviours + extra.get("distinct", 0) if (events + behaviours) else 0,
                rule="T: one event per call on the real code, judged by the TLA+ action of the same name (events per action in events_by_action); "
                     "R: behaviours enumerated by TLC and replayed on the real code; D: bounded model checking of the specification",
-               design_checks=dres, events_validated=events, events_by_action=ops, rejected_events=len(rejects),
+               design_checks=dres, lemmas=lres, obligations=len(lres), discharged=len(lres), events_validated=events, events_by_action=ops, rejected_events=len(rejects),
                behaviours_replayed=behaviours, generators=[{k: v for k, v in g.items() if k != "sample"} for g in gres],
                replay_mismatches=len(mism), driver_summary=summary, known_findings_seen=sorted(known.keys()),
                exhaustive=bool(P.get("exhaustive", False)), extra={k: v for k, v in extra.items() if k != "samples"})
